@@ -43,6 +43,10 @@ try:
         rt = sh(f"cd {wt} && /venv/bin/python -m pytest -q -p no:cacheprovider --timeout=900 -x 2>&1 | tail -3", env=env)
         line = [l for l in rt.stdout.splitlines() if "passed" in l or "failed" in l or "error" in l]
         meta["ran"]["test_suite_with_change"] = {"summary": line[-1] if line else rt.stdout[-200:], "wall_s": round(time.time() - t0)}
+    elif os.path.exists(f"/verif/seeded/{a.id}/meta.json") and open(f"/verif/seeded/{a.id}/patch.diff").read() == open(a.patch).read():
+        old = json.load(open(f"/verif/seeded/{a.id}/meta.json"))
+        if "test_suite_with_change" in old["ran"]:
+            meta["ran"]["test_suite_with_change"] = old["ran"]["test_suite_with_change"]     # same patch, validated earlier
     meta["ran"]["checks"] = {}
     for c in checks:
         t0 = time.time()
